@@ -12,10 +12,11 @@ sys.path.insert(0, os.path.join(c.VERIF, "translate"))
 import prec_table  # noqa: E402
 import ident_rules  # noqa: E402
 import c10_peg  # noqa: E402  (grammar layer: translate/pest2coq.py, coq/Peg.v, PEG-* streams)
+import textstream  # noqa: E402  (TEXT-EVAL: coq/TextRun.v, text -> outputs as one model; layout slice)
 
 PID = "C10"
 MANIFEST = {
-    "text": "36 Coq theorems. Token level (transcription of pest's Pratt parser and pairs_to_expr_inner over token "
+    "text": "41 Coq theorems. Token level (transcription of pest's Pratt parser and pairs_to_expr_inner over token "
             "streams, table regenerated from precedence.rs / expressions.rs / pest on every run): the Pratt table built "
             "from the generated rows refines the hand-written specification table (all 34 operator rules); every tree "
             "the parser can produce is recovered from EVERY rendering that carries at least the parentheses the "
@@ -42,8 +43,18 @@ MANIFEST = {
             "grammar whose WHITESPACE is a choice of single characters, skip absorbs additional blanks and additional "
             "blanks between the two tokens of a non-atomic sequence change nothing but positions (unconditional after a "
             "literal token; instance for the "
-            "regenerated grammar). PARTIAL: fuel sufficiency from the computed well-formedness check is stated "
-            "(fuel_sufficient_full), not proved (OutOfFuel counted, 0); layout insensitivity of whole programs (blanks "
+            "regenerated grammar). TERMINATION (coq/PegTerm.v, proofs/PegFuel.v): for EVERY grammar with a computed "
+            "termination certificate (nullable set closed under the rules, no nullable repetition body or WHITESPACE, "
+            "per-rule depth budgets dominating the left depth of every body with a discount of C levels per consumed "
+            "byte — impossible for a left-recursive rule) non-nullable expressions consume on success "
+            "(C10_peg_nonnullable_consumes) and run / parse never return OutOfFuel with fuel bytes*C + budget "
+            "(C10_peg_run_fuel_sufficient, C10_peg_fuel_sufficient; induction on fuel over the measure bytes left / "
+            "rule-call depth without consumption / expression size); the certificate of the regenerated grammar is "
+            "recomputed and re-checked by vm_compute on every build with C = 48, budgets <= 128, hence C10_peg_total: "
+            "with the model's fuel 128 + 48*bytes the parser model never runs out of fuel on ANY text, and "
+            "C10_peg_fuel_independent. PARTIAL: fuel_sufficient_full in its original wording (hypothesis wf_grammar, "
+            "the depth-first-search check) stays a Prop — missing is 'the search finds no cycle => budgets exist'; "
+            "layout insensitivity of whole programs (blanks "
             "and line breaks inside the compound-atomic expression rule are explicit grammar calls) stays with the "
             "layout searches; the model's pair tree is compared with pest's generated parser on ~5000 generated, "
             "corpus, README and mutated texts per run (PEG-tree, PEG-malformed)",
@@ -962,6 +973,7 @@ def main(argv):
         except c.BrokenTie as e:
             res.tie_broken(e.what, e.detail)
         lap(res, "PEG")
+        textstream.run_text_stream(h, c.Rng(seed + 0x7E87), tier == "quick", res, tag="c10text", part="layout", tree_meta=meta)
     # ---- searches on the implementation alone
     evaluations += small_search(h, res)
     evaluations += triple_search(h, res)
